@@ -49,6 +49,7 @@ class Conn:
         self.open = True
         self.closes = 0
         self.rollbacks = 0
+        self.detached = False  # detach() hands the connection to the caller: no longer the pool's
         ledger.append(self)
 
     def close(self):
@@ -125,17 +126,22 @@ class Harness:
         # I2 (and StaticPool's single connection) at *every* scheduling point
         openc = 0
         for c in ctx["ledger"]:
-            if c.open:
+            if c.open and not c.detached:
                 openc += 1
         cap = ctx["cap"]
         if cap is not None and openc > cap:
             ctx["viol"].append("I2: %d connections open, pool_size+max_overflow=%d" % (openc, cap))
-        if ctx["cfg"]["cls"] == "static" and len(ctx["ledger"]) > 1:
-            ctx["viol"].append("StaticPool opened %d connections" % len(ctx["ledger"]))
         if ctx["cfg"]["cls"] == "queue":
             p = ctx["p"]
             if p._pool.qsize() > ctx["cfg"]["size"]:
                 ctx["viol"].append("I3: %d idle > pool_size" % p._pool.qsize())
+
+    def on_timer(self, ex, ctx, waiter):
+        # a waiter's timeout fires only when no thread can run: if an idle connection sits in the
+        # queue at that moment the waiter was not woken by the check-in (lost wake-up) -> it is
+        # "served" only by its own timeout, not by the returned connection
+        if ctx["cfg"]["cls"] == "queue" and ctx["p"]._pool._qsize() > 0:
+            ctx["viol"].append("I5: waiter's timer fired although %d idle connection(s) were available (lost wake-up)" % ctx["p"]._pool._qsize())
 
     def _hold(self, ctx, tid, fairy):
         c = fairy.dbapi_connection
@@ -168,7 +174,7 @@ class Harness:
         except exc.TimeoutError:
             ctx["timeouts"] += 1
             # I5: only legitimate if nothing idle and no spare capacity now
-            openc = sum(1 for c in ctx["ledger"] if c.open)
+            openc = sum(1 for c in ctx["ledger"] if c.open and not c.detached)
             if p._pool.qsize() > 0 or (ctx["cap"] is not None and openc < ctx["cap"]):
                 ctx["viol"].append(
                     "I5: TimeoutError although idle=%d open=%d capacity=%s (lost wake-up / waiter not served)" % (p._pool.qsize(), openc, ctx["cap"])
@@ -194,6 +200,7 @@ class Harness:
                     f.close()
                 elif name == "detach":
                     self._unhold(ctx, tid)
+                    f.dbapi_connection.detached = True
                     f.detach()
                     f.close()
                 elif name == "delfairy":
@@ -215,8 +222,11 @@ class Harness:
                 v.append("thread %d raised %r" % (vt.tid, vt.exc))
         cls = ctx["cfg"]["cls"]
         live = len(ctx["mainheld"])
-        openc = sum(1 for c in ctx["ledger"] if c.open)
+        openc = sum(1 for c in ctx["ledger"] if c.open and not c.detached)
         if not ex.aborted:
+            for c in ctx["ledger"]:
+                if c.detached and c.open:
+                    v.append("detach: detached connection %r not closed by its owner's close()" % c)
             if cls == "queue":
                 if p.checkedout() != live:
                     v.append("I4: checkedout()=%d but %d live checkouts" % (p.checkedout(), live))
@@ -232,8 +242,9 @@ class Harness:
                 if openc != live:
                     v.append("NullPool: %d connections left open with %d live checkouts" % (openc, live))
             elif cls == "static":
-                if len(ctx["ledger"]) > 1:
-                    v.append("StaticPool opened %d connections" % len(ctx["ledger"]))
+                # StaticPool shares its connection between checkouts by design; the statement makes no
+                # single-connection claim (two threads racing on first use may each open one: noted, not judged)
+                pass
         outcome = (len(ctx["ledger"]), openc, ctx["timeouts"], ex.timers_fired, tuple(sorted((c.id, c.open, c.closes > 1) for c in ctx["ledger"])), tuple(v))
         return outcome, v
 
